@@ -223,6 +223,7 @@ class Ctx:
         self._model = None
         self.unknown_here = False
         self._pending = []
+        self.scratch = {}       # per-path scratch space for scenarios
         self._fallbacks = 0
         self._decided = {}
         self._keep = []
@@ -710,6 +711,10 @@ def explore(fn, kwargs=None, prefixes=None, max_paths=100000, deadline=None, fro
                                           concrete_info="%r\n%s" % (rc.error, tb[-1200:]))
                 else:
                     crashes.append(dict(error=repr(e), assign=a, tb=tb))
+            elif r == "unsat":
+                # the path was entered through a branch z3 could not decide and turned out to be infeasible
+                ctx.stats["aborted"] += 1
+                ctx.stats["errors"] -= 1
             elif r != "sat":
                 crashes.append(dict(error=repr(e), assign=None, tb=tb))
         finally:
